@@ -39,6 +39,17 @@ class Mgr:
     def __bool__(self) -> bool:
         return self.k % 2 == 1      # every other manager of a chain is falsy
 
+    # value equality, like a dataclass manager: every link of a chain is EQUAL to every other and identical to none
+    # (the steps of fill_context are about which object the context holds, never about what it compares equal to)
+    def __eq__(self, other: Any) -> bool:
+        return isinstance(other, Mgr)
+
+    def __ne__(self, other: Any) -> bool:
+        return not isinstance(other, Mgr)
+
+    def __hash__(self) -> int:
+        return 11
+
     def __len__(self) -> int:
         return self.k % 2
 
